@@ -165,7 +165,7 @@ CHECKS["C04"] = {
 
 CHECKS["C16"] = {
     "level": "model_checking",
-    "technique": "exhaustive history exploration where every node works on copies: parents re-observed after their subtree, queries/normalize/minimize compared by exported meaning, and direct/abstract_domain/abstract_domain_ref flavours run in lock step",
+    "technique": "exhaustive history exploration where every node works on copies: parents re-observed after their subtree, queries/normalize/minimize compared by exported meaning, direct/abstract_domain/abstract_domain_ref flavours run in lock step, and every copy/assignment/normalisation form followed by every later operation enumerated over all ordered pairs of a pool of reachable values",
     "design_ref": "DESIGN.md §2 C16",
     "jobs": [{"bin": "e3_hist", "args": ["--mode", "dfs"], "deadline": {"quick": 300, "thorough": 900}},
              {"bin": "e3_hist", "args": ["--mode", "lockstep"], "deadline": {"quick": 300, "thorough": 900}},
